@@ -118,7 +118,9 @@ class EventData(object):
         result = self.__event.wait(timeout)
         # pylint: disable=E0702
         # Pylint seems to miss the "is None" check below
-        if self.__exception is None:
+        # The exception is stored before the event is set: don't look at it
+        # until then
+        if not result or self.__exception is None:
             return result
         else:
             raise self.__exception
@@ -140,19 +142,41 @@ class FutureResult(object):
         self.__callback = None
         self.__extra = None
 
-    def __notify(self):
+        # Protects the callback against a registration during the completion
+        self.__lock = threading.Lock()
+
+    def __notify(self, callback, extra):
         """
         Notify the given callback about the result of the execution
+
+        :param callback: The method to call back (can be None)
+        :param extra: Extra parameter to be given to the callback method
         """
-        if self.__callback is not None:
+        if callback is not None:
             try:
-                self.__callback(
+                callback(
                     self._done_event.data,
                     self._done_event.exception,
-                    self.__extra,
+                    extra,
                 )
             except Exception as ex:
                 self._logger.exception("Error calling back method: %s", ex)
+
+    def __set_done(self, result, exception):
+        """
+        Stores the result of the execution and returns the callback to notify
+
+        :param result: The result of the execution
+        :param exception: The exception raised by the execution, if any
+        :return: The (callback, extra) tuple registered at completion time
+        """
+        with self.__lock:
+            if exception is not None:
+                self._done_event.raise_exception(exception)
+            else:
+                self._done_event.set(result)
+
+            return self.__callback, self.__extra
 
     def set_callback(self, method, extra=None):
         """
@@ -165,11 +189,14 @@ class FutureResult(object):
         :param method: The method to call back in the end of the execution
         :param extra: Extra parameter to be given to the callback method
         """
-        self.__callback = method
-        self.__extra = extra
-        if self._done_event.is_set():
+        with self.__lock:
+            self.__callback = method
+            self.__extra = extra
+            done = self._done_event.is_set()
+
+        if done:
             # The execution has already finished
-            self.__notify()
+            self.__notify(method, extra)
 
     def execute(self, method, args, kwargs):
         """
@@ -188,19 +215,20 @@ class FutureResult(object):
         if kwargs is None:
             kwargs = {}
 
+        callback = extra = None
         try:
             # Call the method
             result = method(*args, **kwargs)
         except Exception as ex:
             # Something went wrong: propagate to the event and to the caller
-            self._done_event.raise_exception(ex)
+            callback, extra = self.__set_done(None, ex)
             raise
         else:
             # Store the result
-            self._done_event.set(result)
+            callback, extra = self.__set_done(result, None)
         finally:
             # In any case: notify the call back (if any)
-            self.__notify()
+            self.__notify(callback, extra)
 
     def done(self):
         """
